@@ -16,6 +16,7 @@ import (
 )
 
 type Engine struct {
+	unbound map[string]string // contracts that bind to no function: key -> file:line
 	prog  *ssa.Program
 	pkgs  []*packages.Package
 	spkgs map[string]*ssa.Package
